@@ -183,6 +183,12 @@ def gen_plan(rng, tier, index, config=None):
         elif op == "lift":
             x = r.weighted([(0, 1), (1, 1), (C.p - 1, 1), (r.between(0, C.p - 1), 6), (C.G[0], 1)])
             steps.append({"op": "lift", "x": x})
+            # the points found this way (x = 0, 1, p-1 among them) take part in the arithmetic that follows
+            pts = C.lift_x(x)
+            if pts:
+                known.append((None, pts[r.below(len(pts))]))
+                if r.chance(0.6):
+                    steps.append({"op": "mul", "k": _scalar(r, n, wide=big), "P": enc(known[-1][1])})
         elif op == "ecdh":
             steps.append({"op": "ecdh", "dA": r.between(1, n - 1), "dB": r.between(1, n - 1)})
         elif op == "sign":
